@@ -63,15 +63,40 @@ def unit_env():
     return units, secs
 
 
-def event_of(res):
-    """what Trace_Date needs from one rv-eval result"""
+def event_of(res, zl=()):
+    """what Trace_Date needs from one rv-eval result; zl: the zone-naming literals of the query with their offsets"""
     ev = evalkit.slim_event(res, keep_parts=False)
+    ev["zl"] = list(zl)
     if "crash" not in res:
         o = res["obs"]
         if o.get("t") == "date":
             ev["obs"]["rfc"] = rfc_fields(o.get("rfc3339"))
             ev["obs"]["fields"] = o.get("fields")
+            if res.get("dateval"):
+                ev["obs"]["exact"] = res["dateval"]
     return ev
+
+
+_lit_re = re.compile(r"#([^#]*)#")
+
+
+def run_queries(texts, shards, tag):
+    """Runs the queries (with the date value behind each reply) and, before that, every distinct literal alone: a
+    literal that names a zone gets the UTC offset the code reports for it (the tz database is an input of the
+    specification, not a part of it).  Returns (results, events)."""
+    lits = sorted({m for t in texts for m in _lit_re.findall(t)})
+    lres = evalkit.run_eval([{"qs": "#%s#" % l, "dateval": True} for l in lits], ctx="bundled", timeout_ms=5000, shards=shards, tag=tag + "l")
+    zoff = {}
+    for l, r in zip(lits, lres):
+        dv = r.get("dateval") if "crash" not in r else None
+        if dv and dv.get("variant") == "tz":
+            zoff[l] = dv["off"]
+    res = evalkit.run_eval([{"qs": t, "dateval": True} for t in texts], ctx="bundled", timeout_ms=5000, shards=shards, tag=tag)
+    events = []
+    for t, r in zip(texts, res):
+        zl = [{"lit": [ord(c) for c in l], "off": zoff[l]} for l in dict.fromkeys(_lit_re.findall(t)) if l in zoff]
+        events.append(event_of(r, zl))
+    return res, events
 
 
 def judge(events, units, shards, tag, min_per_shard=150):
@@ -85,7 +110,10 @@ def obs_brief(r):
     if "crash" in r:
         return {k: r.get(k) for k in ("crash", "msg", "signal")}
     o = r["obs"]
-    return {k: o[k] for k in ("t", "c", "msg", "rfc3339", "fields", "v", "d", "kind") if k in o}
+    b = {k: o[k] for k in ("t", "c", "msg", "rfc3339", "fields", "v", "d", "kind") if k in o}
+    if r.get("dateval"):
+        b["dateval"] = r["dateval"]
+    return b
 
 
 # ----------------------------------------------------------------------------
@@ -197,11 +225,12 @@ DAYS = [(1, 1), (2, 28), (2, 29), (3, 1), (12, 31)]
 TIMES = [(0, 0, 0, ""), (12, 0, 0, ""), (23, 59, 59, ""), (23, 59, 59, "999999999"), (1, 2, 3, "000000001"), (12, 30, 15, "5")]
 ZONES = ["UTC", "US/Pacific", "Europe/London", "Asia/Kolkata", "Pacific/Apia"]
 # kind 0: none, 1: fixed (seconds), 2: named zone (index into ZONES)
-OFFSETS = [(0, 0), (1, 0), (1, -14400), (1, 19800), (1, 50400), (2, 2), (2, 4)]
+OFFSETS = [(0, 0), (1, 0), (1, -14400), (1, 19800), (1, 50400), (1, -12600), (2, 2), (2, 4)]
 WRITERS = ["isoT", "iso", "isodate", "ord", "mdy12", "mdy24", "mdy", "ctime", "ymd12", "ymd24"]
-CONV_OFFSETS = ["+00:00", "-04:00", "+05:30", "+14:00", "+23:59", "-23:59", "+24:00", "-24:00", "+99:00", "-00:00", "-99:59"]
+CONV_OFFSETS = ["+00:00", "-04:00", "+05:30", "+14:00", "-03:30", "+23:59", "-23:59", "+24:00", "-24:00", "+99:00", "-00:00", "-99:59"]
 ANCHORS = ["0001-01-01 00:00:00", "1970-01-01T00:00:00 +00:00", "2000-02-29 23:59:59.999999999 -04:00",
-           "December 31, 9999 11:59:59.999999999 pm +14:00", "2016 dec 31 23:59:59 +05:30", "Fri Oct 15 00:00:00 1582"]
+           "December 31, 9999 11:59:59.999999999 pm +14:00", "2016 dec 31 23:59:59 +05:30", "Fri Oct 15 00:00:00 1582",
+           "2000-07-01 12:00:00.5 Europe/London", "Dec 31 1969 16:00:00 US/Pacific", "1850-06-15T12:00:00 Asia/Kolkata"]
 # regression seeds (DESIGN.md section 6: F7, F8, F9) and forms the generator does not write; each is judged by the specification
 SEEDS = ["#2000-01-01 00:00:00.1234567890#", "#2000-01-01# -> +99:00", "(#2000-01-01# + 0.0005 s) - #2000-01-01#",
          "1 s + #2000-01-01#", "#2000-01-01# + 1 m", "#2000-01-01# + 1", "#2000-01-01# + #2000-01-01#",
@@ -246,9 +275,8 @@ _rejects = []      # every rejected line of this run (written to work/c14-reject
 def decide(run, cases, leg, units, shards, min_per_shard=150):
     """cases: [{q, mut}] -> runs, judges, reports.  Returns per-tag counts."""
     t0 = time.time()
-    res = evalkit.run_eval([{"qs": c["q"]} for c in cases], ctx="bundled", timeout_ms=5000, shards=shards, tag="c14" + leg)
+    res, events = run_queries([c["q"] for c in cases], shards, "c14" + leg)
     t1 = time.time()
-    events = [event_of(r) for r in res]
     verdicts, st = judge(events, units, shards, "c14j" + leg, min_per_shard=min_per_shard)
     run.cov["states"] += st["distinct"]
     run.cov["transitions"] += st["generated"]
@@ -314,7 +342,7 @@ def run(tier, seed):
 
     # G2: every duration text x anchors x arithmetic forms
     durs_all = duration_texts(secs, rng, per_duration=None if thorough else 3)
-    anchors = ANCHORS if thorough else [ANCHORS[i] for i in sorted(rng.sample(range(len(ANCHORS)), 3))]
+    anchors = ANCHORS if thorough else [ANCHORS[i] for i in sorted(rng.sample(range(6), 2) + rng.sample(range(6, len(ANCHORS)), 1))]
     dur, r2 = gen("c14dur", "dur", seed, durs=durs_all, anchors=anchors, workers=2, timeout=1200, coverage=True)
     vacuity_gate(r2, "dur")
     run.add_tlc(r2, "MC_DateGen dur")
@@ -341,17 +369,15 @@ def run(tier, seed):
             raise vlib.ToolError("leg %s: the specification was silent on more than half of the generated queries" % leg)
 
     # the binding is not vacuous: corrupted observations must be rejected
-    res = evalkit.run_eval([{"qs": "(#2000-02-29 23:59:59 -04:00# + 86400 s) - #2000-02-29 23:59:59 -04:00#"},
-                            {"qs": "#2000-02-28 23:59:59 +05:30# + 1 day"}, {"qs": "#2000-02-28# -> -04:00"}], ctx="bundled", tag="c14self")
-    evs = [event_of(r) for r in res]
+    res, evs = run_queries(["(#2000-02-29 23:59:59 -04:00# + 86400 s) - #2000-02-29 23:59:59 -04:00#",
+                            "#2000-02-28 23:59:59 +05:30# + 1 day", "#2000-02-28# -> -04:00"], 1, "c14self")
     ok = all(e["obs"].get("t") in ("num", "date") for e in evs)
     if ok:
         good, _ = judge([json.loads(json.dumps(e)) for e in evs], units, 1, "c14selfg")
         ok = not any(good.get(i, set()) & {"REJECT", "CRASH", "SILENT"} for i in range(3))
     if ok:
         evs[0]["obs"]["v"]["n"]["mag"][0] += 1
-        evs[1]["obs"]["rfc"][2] += 1
-        evs[1]["obs"]["fields"][2] += 1
+        evs[1]["obs"]["exact"]["secs"]["mag"][0] ^= 1          # the value behind the reply: one second off
         evs[2]["obs"]["rfc"][3] = (evs[2]["obs"]["rfc"][3] + 1) % 24
         evs[2]["obs"]["fields"][3] = evs[2]["obs"]["rfc"][3]
         verdicts, _ = judge(evs, units, 1, "c14selfj")
@@ -372,8 +398,8 @@ def replay(path, seed):
     q = body["case"]["q"]
     vlib.build_harness()
     units, _ = unit_env()
-    res = evalkit.run_eval([{"qs": q}], ctx="bundled", tag="c14r")
-    verdicts, _ = judge([event_of(res[0])], units, 1, "c14rj")
+    res, evs = run_queries([q], 1, "c14r")
+    verdicts, _ = judge(evs, units, 1, "c14rj")
     v = verdicts.get(0, {"ACCEPT"})
     log("query: %r\nobserved: %s\nverdict: %s" % (q, json.dumps(obs_brief(res[0]))[:600], sorted(v)))
     return 1 if v & {"REJECT", "CRASH"} else 0
@@ -383,8 +409,7 @@ def probe(texts):
     """development helper: run and judge a few texts, print everything"""
     vlib.build_harness()
     units, _ = unit_env()
-    res = evalkit.run_eval([{"qs": t} for t in texts], ctx="bundled", tag="c14p")
-    evs = [event_of(r) for r in res]
+    res, evs = run_queries(texts, 2, "c14p")
     verdicts, st = judge(evs, units, 4, "c14pj", min_per_shard=20)
     for i, t in enumerate(texts):
         print(t, "=>", sorted(verdicts.get(i, {"ACCEPT"})), json.dumps(obs_brief(res[i]))[:160])
